@@ -10,37 +10,37 @@ TRUST = "trusted: sha2/sha3 compression functions (shared by library and model, 
 
 # property -> (built?, technique, level text, level note, design ref)
 TABLE = {
- "C01": (True, "runtime monitoring: every released signature checked by the library's three verification entry points over lifetime walks and boundary counters",
+ "C01": (True, "runtime monitoring: every released signature checked by the library's three verification entry points over lifetime walks and boundary counters; repeated in builds with reduced limits and in a fast_verify build (sign_mut); thorough: also with debug assertions on",
          "oracle = the library's own verifier through all three entry points, observed on every signature released by a workload of 6 hashes x W x H2/H5/H10 x 1..8 levels at boundary counters (around every subtree roll-over) and on complete lifetime walks through the real callback chain alternating sign / try_sign / try_sign_with_aux; a run that did not cross a roll-over of each upper level per hash is inconclusive",
          TRUST, "DESIGN.md 5 (C01)"),
  "C02": (True, "runtime differential monitoring of the verifier against an independent RFC 8554 verifier over structure-aware mutations (hooks-on build, production hooks-off build, fast_verify/std build; thorough: coverage-guided differential fuzzing with libFuzzer + ASan)",
          "a pool of valid triples (library-, model- (random C) and hash-sigs-tool-signed; 6 hashes; 1..8 levels; plus model-built valid signatures of keys with H15/H20/H25 trees that could never be generated) is mutated field by field using the model's parser (every field class x alterations, every type code, q boundaries, re-cut lengths, level-count and chain manipulations, splices across levels/keys/hashes, truncation/extension, every byte of the smallest signatures, noise); every mutated triple is judged by the library (three entry points) and by the independent verifier, disagreement in either direction is a violation; the hash-sigs tool gives a third opinion on a sample",
          TRUST, "DESIGN.md 5 (C02)"),
- "C03": (True, "offline checking of recorded signing histories (ghost state over released signatures and persisted keys)",
+ "C03": (True, "offline checking of recorded signing histories (ghost state over released signatures and persisted keys), incl. stretches of keys with up to 2^42 leaves and a 2^20-leaf top tree; repeated in a fast_verify build with sign_mut steps",
          "seeded generator plays complete-lifetime histories (sign, refused sign, crashing callback, reload, entry-point switches, own/foreign/fresh aux) always continuing from the last persisted key; the history recorded at the API boundary is checked by an OTS ghost map keyed on public material (level, I, q), by the mixed-radix digit rule for the n-th released signature and by the counter+1 rule for persisted keys; the count of distinct one-time keys over a lifetime must equal the number of (tree, leaf) pairs",
          TRUST, "DESIGN.md 5 (C03)"),
- "C05": (True, "runtime monitoring of complete lifetimes + exhaustive execution of the real accounting arithmetic through hooks",
+ "C05": (True, "runtime monitoring of complete lifetimes (fresh objects per call and one long-lived key object) + exhaustive execution of the real accounting arithmetic through hooks",
          "end to end: lifetime walks with get_lifetime before every signature, wiped-key check on the last hand-over, refusal without callback afterwards; the accounting arithmetic (real increment / get_lifetime code via hook accessors) is executed for every list of 1..8 heights over {2,5,10,15,20,25} with sum<=63 at all boundary counters and compared with u128 arithmetic (exhaustive: true for that finite space)",
          TRUST + "; the hook's skeleton key mirrors how HssPrivateKey::from consumes upper-level leaves (tied to the real path by the end-to-end walks)", "DESIGN.md 5 (C05)"),
- "C04": (True, "fault enumeration with a recording, scripted update callback",
+ "C04": (True, "fault enumeration with a recording, scripted update callback (accept / refuse / fail-once); repeated in a fast_verify build (sign_mut) and in a build with per-level limits",
          "the grid state x callback outcome x aux variant x entry point is finite for small keys and is enumerated completely (every counter of the lifetime of [H2],[H2,H2],[H2,H2,H2],[H5] under all 6 hashes, every failing precondition); the callback recorder decides: count, argument = model successor, no release after refusal, no invocation when nothing can be signed",
          TRUST, "DESIGN.md 5 (C04)"),
  "C06": (True, "panic/termination monitor (catch_unwind + panic hook with location) over exhaustive and structure-aware hostile inputs; repeated in a hooks-off build, in builds with reduced HBS_LMS_* limits and (exported corpus) under the Miri interpreter; thorough: coverage-guided fuzzing with libFuzzer + ASan",
          "every input of the C02 mutation set plus, per (hash, key shape), every prefix length, all 256 values of every byte of every header/type/level field, level counts with well-formed filler so that parsing proceeds, and raw noise is pushed through all three verification entry points and the byte-level constructors; a panic of any kind (the library is built with overflow checks) is a violation, keyed by panic site, entry point and input class",
          TRUST + "; termination is bounded by parsed lengths, longest call reported; a global watchdog firing is inconclusive", "DESIGN.md 5 (C06)"),
- "C07": (True, "runtime differential monitoring: byte comparison with an independently written RFC 8554 signer + independent verifier + reference tool",
+ "C07": (True, "runtime differential monitoring: byte comparison with an independently written RFC 8554 signer + independent verifier + reference tool; repeated in a fast_verify (std) build",
          "every signature released on the C01 grid is compared byte for byte with the model signer run on the same key bytes and message (first differing field named), checked against the RFC length formula, verified by the model and (SHA-256/32) the hash-sigs tool; strict Appendix-B parameters are applied separately so that the recorded ls deviation (known finding) stays visible without masking anything else",
          TRUST + "; the upper-level randomizer rule and the 55-byte PRNG block for n<32 are pinned to the tree under test", "DESIGN.md 5 (C07)"),
  "C09": (True, "metamorphic runtime monitoring across processes, threads, histories and entry points (byte equality with a fresh-process baseline); valgrind memcheck on the worker process; second build with the library's std feature",
          "results for a set of (hash, parameters, seed, counter, message) inputs are computed in a fresh process with a scrubbed environment and re-computed in a second process with a hostile environment, twice on the same thread, after unrelated / failing / panicking operations, concurrently on all worker threads (an atomic active-call table records which call kinds actually overlapped; no overlap = inconclusive), through SigningKey vs the byte-level function, with valid aux, and over complete lifetimes with a key object kept in memory vs reloaded before every signature; any byte difference is a violation",
          TRUST, "DESIGN.md 5 (C09)"),
- "C10": (True, "metamorphic runtime monitoring (with aux vs without aux) + layout comparison with the model and the reference tool",
+ "C10": (True, "metamorphic runtime monitoring (with aux vs without aux) + layout comparison with the model and the reference tool; repeated in builds whose top tree is as tall as the build allows",
          "for every key of the workload the aux-less keygen/sign results are the oracle; keygen and sign are repeated with thousands of hostile buffers (every length, every truncation, every single-bit corruption of small valid buffers, level-word replacements, garbage, other-seed buffers incl. MAC-cut and zero-padded, buffers set up by sign) and any difference, error, panic or write beyond the used length is a violation; fresh buffers must hold the model's hash-sigs layout, byte-identical to the tool's .aux file where the two level selections coincide, and the tool must be able to sign with the library's aux file",
          TRUST + "; buffers MAC-valid for the same seed but another parameter list are legitimate cache contents by the property's own rule and are not generated", "DESIGN.md 5 (C10)"),
  "C11": (True, "fault enumeration under a panic monitor and callback recorder, Ok results checked against the model; repeated in a hooks-off build, in builds with reduced limits and (early-failing share) under the Miri interpreter; thorough: coverage-guided fuzzing of key/aux/message bytes with libFuzzer + ASan",
          "the malformed-input grid (parameter-list lengths 0..10, key lengths 0..64, all 256 values of every parameter byte of 1-/2-/8-level keys, counters at and beyond the lifetime, wiped key, aux lengths 0..8 and all level-word corruptions) is finite and enumerated completely under all 6 hashes; no panic, no callback on error paths, every Ok must be the model's result for the state the bytes encode",
          TRUST + "; well-formed keys whose trees are unaffordable (H10+) are skipped and counted", "DESIGN.md 5 (C11)"),
- "C12": (True, "exhaustive execution of the real digit-encoding code through a hook, against the Appendix-B formulas, plus domination search",
+ "C12": (True, "exhaustive execution of the real digit-encoding code through a hook, against the Appendix-B formulas, plus domination search; repeated in a fast_verify (std) build; thorough: under Miri",
          "the real append_checksum_to + coef are executed for every digest byte position x value and for every attainable checksum value of all 12 (n,w) (finite sub-spaces, enumerated), for millions of random digests and adversarial neighbour pairs (domination search); chain positions recovered from released signatures tie the hook to what sign emits; the three tabulated ls deviations are reported as known findings with concrete domination witnesses",
          TRUST, "DESIGN.md 5 (C12)"),
  "C13": (True, "exhaustive execution of the real counter arithmetic through hooks over all key shapes, with the reference tool as witness",
@@ -55,7 +55,7 @@ TABLE = {
  "C16": (True, "runtime memory inspection of real secret-bearing values after zeroize, drop and exhaustion: raw-memory scans, an interposed libc free() that photographs boxed values at release time, Miri on the zeroize/drop paths",
          "values of all five secret-bearing types are populated by the real derivation code for every hash and W, their secrets snapshotted; after zeroize() and after drop_in_place in a MaybeUninit slot the raw memory of the value (volatile byte reads) must not contain any 8-byte window of a secret and the secret fields must read zero; the same scan is applied to the heap block of a boxed value as photographed by an interposed free() at the moment it is released (the only observer that does not keep an optimisable wipe alive); keys are exhausted through all signing entry points and the final key bytes scanned for the seed; a vacuity guard requires the scan to find the secrets in the live value; a missing Zeroize impl is detected at run time",
          TRUST + "; move residue on the stack is out of scope by design", "DESIGN.md 5 (C16)"),
- "C08": (True, "runtime differential monitoring against an independent model and the reference tool",
+ "C08": (True, "runtime differential monitoring against an independent model and the reference tool, plus the derivation functions themselves (hooks) at parent leaves up to 2^32-1; repeated in builds with reduced limits",
          "differential runtime monitor: every keygen of a seeded workload over 6 hashes x W x heights x 1..8 levels x seed classes is compared byte for byte with an independent model and, for SHA-256/32, with the hash-sigs tool; child-tree derivation is observed through the embedded public keys of released signatures",
          TRUST, "DESIGN.md 5 (C08)"),
 }
